@@ -452,6 +452,9 @@ func genScenario(p *profile) func(t *rapid.T) Scenario {
 		if sc.Cfg.TwoServers && rapid.IntRange(0, 3).Draw(t, "shared") == 0 {
 			sc.Cfg.SharedCache = true
 		}
+		if sc.Cfg.TwoServers && !sc.Cfg.SharedCache && sc.Cfg.HFP > 0 && rapid.Bool().Draw(t, "hfp2Unset") {
+			sc.Cfg.HFP2Unset = true
+		}
 		sc.Keys = genKeys(t, p)
 		g := &genState{t: t, p: p, sc: &sc, lastT: 0}
 		n := rapid.IntRange(p.minOps, p.maxOps).Draw(t, "nOps")
@@ -644,7 +647,7 @@ func TestC04(t *testing.T) {
 
 func TestC07(t *testing.T) {
 	installWedge(t, "C07")
-	p := &profile{prop: "C07", minKeys: 1, maxKeys: 2, methods: []string{"GET", "GET", "GET", "HEAD"}, reloadW: 6,
+	p := &profile{prop: "C07", minKeys: 1, maxKeys: 2, methods: []string{"GET", "GET", "GET", "HEAD"}, reloadW: 6, twoServers: 40,
 		stores: []string{"", "", "lazy"}, cacheSizes: []int{1000, 1000, 100, 1001, 2000}, hfps: []int{0, -5, 1, 2, 5, 60, 300}, proxyTimeouts: []int{0},
 		lifetimes: []int{1, 2, 5}, outcomes: []string{"cacheable", "uncacheable", "uncacheable", "transport_error", "status5xx", "body_abort"},
 		parkPct: 10, w: [6]int{45, 25, 22, 5, 0, 0}, minOps: 6, maxOps: 45,
